@@ -17,6 +17,15 @@ open BloomVerif
 theorem C03_fidelity_partial (t : J) (h : NoDupKeys t) : valueFirst t = valueLast t :=
   value_agree_aux t h
 
+/-- non-vacuity: a nested row (object in object, array of objects) without duplicated keys — "b" recurs only at different levels — is delivered as its round trip -/
+example :
+    let t : J := .obj [("a".toList, .obj [("b".toList, .num "1".toList), ("c".toList, .arr [.null, .obj [("b".toList, .bool true)]])]),
+                       ("b".toList, .str "x".toList)]
+    NoDupKeys t ∧ valueFirst t = valueLast t := by
+  intro t
+  have h : NoDupKeys t := by simp [t, NoDupKeys, NoDupKeysKV, NoDupKeysL]
+  exact ⟨h, C03_fidelity_partial t h⟩
+
 /-- The unguarded statement is false: a duplicated key is delivered with its first value while the
     JSON round trip yields the last. -/
 theorem C03_fidelity_counterexample :
@@ -32,6 +41,11 @@ theorem scan_no_use_after_put (b : Nat) (matched : Nat → Bool) (n : Nat) :
 theorem delivered_from_copy (b : Nat) (matched : Nat → Bool) (n : Nat) (r : Nat)
     (h : ScanOp.deliver r ∈ scanTrace b matched n) : ScanOp.copy b r ∈ scanTrace b matched n :=
   deliver_after_copy_aux b matched n r h
+
+/-- non-vacuity: in a five-row scan on buffer 7 where the odd rows match, row 3 is delivered (and was copied) -/
+example :
+    ScanOp.deliver 3 ∈ scanTrace 7 (fun i => i % 2 == 1) 5 ∧ ScanOp.copy 7 3 ∈ scanTrace 7 (fun i => i % 2 == 1) 5 :=
+  ⟨by decide, delivered_from_copy 7 _ 5 3 (by decide)⟩
 
 /-- Non-vacuity: a nested row without duplicate keys. -/
 example : NoDupKeys (.obj [(['a'], .obj [(['b'], .num ['1']), (['c'], .arr [.null])]), (['b'], .str ['x'])]) := by
